@@ -2214,7 +2214,9 @@ XSLTEngineImpl::cloneToResultTree(
             bool                    cloneTextNodesOnly,
             const Locator*          locator)
 {
-    assert(nodeType == node.getNodeType());
+    // (the built-in rule for text passes a CDATA section as a text node)
+    assert(nodeType == node.getNodeType() ||
+           (nodeType == XalanNode::TEXT_NODE && node.getNodeType() == XalanNode::CDATA_SECTION_NODE));
     assert(m_executionContext != 0);
 
     if(cloneTextNodesOnly == true)
